@@ -86,9 +86,17 @@ def _create_new_header(
     new_reuse_info = extract_reuse_info(result)
     # (Expressions are compared by how they are written: both sets may hold
     # parsed expressions or plain strings.)
-    if reuse_info.copyright_lines != new_reuse_info.copyright_lines or set(
-        map(str, reuse_info.spdx_expressions)
-    ) != set(map(str, new_reuse_info.spdx_expressions)):
+    # Contributors are compared only when the template renders contributors
+    # at all: a template is free to leave them out, but not to garble them.
+    if (
+        reuse_info.copyright_lines != new_reuse_info.copyright_lines
+        or set(map(str, reuse_info.spdx_expressions))
+        != set(map(str, new_reuse_info.spdx_expressions))
+        or (
+            new_reuse_info.contributor_lines
+            and reuse_info.contributor_lines != new_reuse_info.contributor_lines
+        )
+    ):
         _LOGGER.debug(
             _(
                 "generated comment is missing copyright lines or license"
